@@ -75,6 +75,9 @@ def run(ctx):
     inp = ctx.write_ndjson("behaviours.ndjson", behs)
     gr = ctx.go_test("tsdb", ["c05_isolation_test.go"], "^TestVerifC05Replay$", env={"VERIF_IN": inp}, timeout="30m")
     ctx.absorb(gr, label="C05 replay")
+    if not gr.by_kind("done"):
+        # vlib.absorb tolerates a missing done record when violation records exist (known findings always produce one)
+        raise vlib.Infra("harness C05 replay did not finish (no done record):\n%s" % gr.out[-3000:])
     ctx.assumptions += [
         "bounded model: <=4 appenders, <=3 series, <=3 readers, float samples, OOO disabled, one chunk range, SamplesPerChunk=1 (cut at 2 samples)",
         "Begin = Head.Appender + all Append calls atomically; reads of one series are atomic w.r.t. commit steps (appenders parked at gates)",
